@@ -905,6 +905,26 @@ class Engine(object):
                     for s3, r in self.call_method(recv, f.attr, args, kwargs, s2, e):
                         outs.append((s3, r))
             return outs
+        if (
+            isinstance(f, ast.Name) and f.id == "count_iter_items" and len(e.args) == 1 and not e.keywords
+            and isinstance(e.args[0], ast.Call) and isinstance(e.args[0].func, ast.Name)
+            and e.args[0].func.id == "takewhile" and len(e.args[0].args) == 2
+        ):
+            pred, xs = e.args[0].args
+            outs = []
+            for s, x in self.eval(xs, st):
+                r = fresh("takewhile_count", I)
+                s.assume(r >= 0)
+                if isinstance(x, VStr):
+                    s.assume(r <= z3.Length(x.z))
+                    if ast.unparse(pred) == "str.isspace":
+                        s.assume(z3.Implies(z3.And(z3.Length(x.z) > 0, py_isspace(z3.SubString(x.z, 0, 1))), r >= 1))
+                self.assumptions.add(
+                    "stdlib idiom spec: count_iter_items(takewhile(p, s)) is the length r of the longest prefix of s whose items satisfy p "
+                    "(0 <= r <= len(s); r >= 1 if s is non-empty and p(s[0]))"
+                )
+                outs.append((s, VInt(r)))
+            return outs
         # ---- the deque(map(f, xs), maxlen=0) idiom is handled at statement level
         for s, fv in self.eval(f, st):
             return self.call_value(fv, e, s)
@@ -1579,9 +1599,15 @@ class Engine(object):
 
     # ------------------------------------------------------------------ loops
 
+    @staticmethod
+    def loop_key(node):
+        return ("while@" + ast.unparse(node.test)) if isinstance(node, ast.While) else ("for@" + ast.unparse(node.iter))
+
     def loop_spec(self, node):
         k = self.loop_ordinals.get(id(node))
         spec = self.contract.loops.get(k)
+        if spec is None:
+            spec = self.contract.loops.get(self.loop_key(node))
         return k, spec
 
     def loop_havoc(self, node, st):
@@ -1941,3 +1967,67 @@ class Contract(object):
         mod, path = self.src.split(":")
         node, _seg, _p = extract.find_def(mod, path)
         return node
+
+
+def _engine_verify_loop(self, contract, k):
+    """
+    Loop-local termination proof (C11): from an *arbitrary* state at the head of while-loop #k
+    (variables of the declared sorts, nothing else assumed) the variant is >= 0 whenever the guard
+    holds and strictly decreases on every back edge.  No invariant is assumed unless the contract
+    lists one, in which case it is also checked to be preserved (its establishment is then a
+    separate obligation of a whole-function run).
+    """
+    import copy
+
+    self.contract = contract
+    self.modname = contract.qual.split(":")[0]
+    self.module = importlib.import_module(self.modname)
+    fnode = contract.fnode()
+    if fnode is None:
+        raise OutOfSubset("function %s not found in current source" % contract.qual)
+    fnode = self.rewrite_idioms(copy.deepcopy(fnode))
+    self.contract_fnode = fnode
+    self.number_loops(fnode)
+    cands = [n for n in ast.walk(fnode) if isinstance(n, ast.While) and (self.loop_key(n) == k or self.loop_ordinals[id(n)] == k)]
+    if len(cands) != 1:
+        raise OutOfSubset("while-loop %r of %s: %d matches in current source" % (k, contract.qual, len(cands)))
+    node = cands[0]
+    spec = contract.loops.get(k)
+    if spec is None or "variant" not in spec:
+        raise OutOfSubset("while-loop %r of %s (line %d) has no variant in the sidecar" % (k, contract.qual, node.lineno))
+    k = self.loop_ordinals[id(node)]
+    st = State()
+    for n_, kind in spec.get("vars", {}).items():
+        st.bind(n_, self.fresh_value(kind, n_, st))
+    st.old = (dict(st.frames[0]), dict(st.heap))
+    self.assume_invs(st, spec)
+    vtree = ast.parse(spec["variant"], mode="eval").body
+
+    def variant(s):
+        self.spec_mode, self._spec_old = True, s.old
+        try:
+            return self._eval_spec_node(vtree, s)
+        finally:
+            self.spec_mode = False
+
+    iters = 0
+    for s1, c in self.eval(node.test, st):
+        sb = s1.fork()
+        sb.assume(self.truthy(c, s1))
+        if not self.feasible(sb):
+            continue
+        v0 = variant(sb)
+        sb.ghost["v0"] = v0
+        self.oblige(sb, "loop%d.variant.bounded" % k, v0.z >= 0, node.lineno)
+        for s3, (kind, val) in self.exec_block(node.body, sb):
+            if kind in (NORMAL, CONTINUE):
+                iters += 1
+                self.check_invs(s3, k, spec, "preserve", node.lineno)
+                self.oblige(s3, "loop%d.variant.decreases" % k, variant(s3).z < v0.z, node.lineno)
+    self.covers.append(("some-back-edge-reachable", iters > 0))
+    if iters == 0:
+        raise OutOfSubset("no feasible back edge in while-loop #%d of %s (vacuous, or every path leaves the loop)" % (k, contract.qual))
+    return self.obligations
+
+
+Engine.verify_loop = _engine_verify_loop
